@@ -21,6 +21,7 @@ import (
 	"encoding/json"
 	"fmt"
 	"hash/fnv"
+	"math"
 	"math/rand"
 	"os"
 	"os/exec"
@@ -826,6 +827,48 @@ func c14EvalSites(c *vh.Ctx) {
 		c.Dist("sortkeys")
 	}
 
+	// (4b) member order of Set.MarshalJSON / Set.MarshalCedar on sets whose members collide in the hash table (also
+	// across the wrap-around at slot 2^64-1): the bytes must be the model's (table built with the model's goHash, slots
+	// in orderedSlots order), and the set decoded from its own JSON must marshal to the same bytes again.
+	for i := 0; i < c.N(400, 4000); i++ {
+		ms := c14CollidingMembers(r)
+		s1 := types.NewSet(ms...)
+		j1, _ := s1.MarshalJSON()
+		c1 := s1.MarshalCedar()
+		var s2 types.Set
+		if err := s2.UnmarshalJSON(j1); err != nil {
+			c.Dist("setorder:own-json-rejected") // a member whose text does not parse back (C12's datetime finding)
+		} else {
+			j2, _ := s2.MarshalJSON()
+			c2 := s2.MarshalCedar()
+			c.Res.OracleChecks++
+			if !bytes.Equal(j1, j2) || !bytes.Equal(c1, c2) {
+				var enc []any
+				for _, v := range ms {
+					enc = append(enc, vh.EncValue(v))
+				}
+				c.Report(vh.Finding{Class: "set-marshal-roundtrip-unstable", What: fmt.Sprintf("a set decoded from its own JSON marshals differently: %s | %s ; %s | %s", j1, j2, c1, c2),
+					Check: "oracle", Op: "c14.setorder", Input: map[string]any{"members": enc}, Expected: string(j1), Actual: string(j2)})
+			}
+		}
+		for _, form := range []struct {
+			sep  string
+			out  []byte
+			text func(types.Value) string
+		}{
+			{",", j1, func(v types.Value) string { b, _ := json.Marshal(v); return string(b) }},
+			{", ", c1, func(v types.Value) string { return string(v.MarshalCedar()) }},
+		} {
+			var members []any
+			for _, v := range ms {
+				members = append(members, map[string]any{"value": vh.EncValue(v), "text": vh.Hex(form.text(v))})
+			}
+			line := b.Add("c14.setorder", map[string]any{"sep": vh.Hex(form.sep), "members": members}, vh.Hex(string(form.out)), "")
+			c.Count(b.Key(line), len(ms) >= 2)
+		}
+		c.Dist("setorder")
+	}
+
 	// (5) authorization: the model (policies in the listed order) against the implementation's canonical result
 	c14AuthzCorrespondence(c, b, c.N(150, 1500))
 
@@ -887,4 +930,46 @@ func c14AuthzCorrespondence(c *vh.Ctx, b *vh.Batch, n int) {
 		c.Count(b.Key(line)+env.Name, true)
 		c.Dist("authz-correspondence")
 	}
+}
+
+// c14CollidingMembers: 2..6 distinct values of which several have the same internal hash n: the Long, the Decimal,
+// the Datetime and the Duration with representation n, the Boolean if n is 0 or 1, sets of two such values whose
+// hashes add up to n (mod 2^64), plus members that do not collide.
+func c14CollidingMembers(r *rand.Rand) []types.Value {
+	ns := []int64{0, 1, -1, -1, -1, -2, -2, -3, 2, 5, 1000, math.MaxInt64, math.MinInt64, -7}
+	n := ns[r.Intn(len(ns))]
+	dec := func(k int64) types.Value { d, _ := types.NewDecimal(k, -4); return d }
+	pool := []types.Value{types.Long(n), dec(n), types.NewDatetimeFromMillis(n), types.NewDurationFromMillis(n)}
+	if n == 0 || n == 1 {
+		pool = append(pool, types.Boolean(n == 1))
+	}
+	for k := 0; k < 3; k++ {
+		a := int64(r.Intn(9)) - 4
+		if a == n-a {
+			continue
+		}
+		switch r.Intn(3) {
+		case 0:
+			pool = append(pool, types.NewSet(types.Long(a), types.Long(n-a)))
+		case 1:
+			pool = append(pool, types.NewSet(dec(a), types.NewDatetimeFromMillis(n-a)))
+		default:
+			pool = append(pool, types.NewSet(types.NewDurationFromMillis(a), types.Long(n-a)))
+		}
+	}
+	pool = append(pool, types.Long(n+1), dec(n+1), types.Long(n+2), types.Long(0), types.Boolean(false), types.String("x"), types.NewEntityUID("T", "e"), types.NewSet(types.Long(n)))
+	r.Shuffle(len(pool), func(a, b int) { pool[a], pool[b] = pool[b], pool[a] })
+	var out []types.Value
+	for _, v := range pool {
+		dup := false
+		for _, w := range out {
+			if v.Equal(w) {
+				dup = true
+			}
+		}
+		if !dup && len(out) < 2+r.Intn(7) {
+			out = append(out, v)
+		}
+	}
+	return out
 }
